@@ -337,6 +337,49 @@ func giveUpInProcess(o *hc.Out, scratch string) {
 		}
 	}
 
+	// 2b. retry delay 0 (only reachable through the library API): the timer of the select is ready at once, Go's select
+	// picks between it and ctx.Done() at random, so the loop still ends (the model: retry_returns under fairness,
+	// delay_zero_unfair_select_spins without) — with the timeout error and nothing left
+	for _, op := range openers {
+		path := fresh()
+		holder := file.NewContainer()
+		hh, herr := holder.CreateHandlerForUpdate(context.Background(), path, time.Second, time.Millisecond)
+		if herr != nil {
+			o.Law("handler_error", map[string]interface{}{"scenario": "retry delay 0 holder", "error": herr.Error()})
+			continue
+		}
+		before := controlKinds(d)
+		type res struct{ err error }
+		ch := make(chan res, 1)
+		go func() {
+			c := file.NewContainer()
+			var err error
+			if op.name == "CreateHandlerForUpdate" {
+				_, err = c.CreateHandlerForUpdate(context.Background(), path, 20*time.Millisecond, 0)
+			} else {
+				_, err = c.CreateHandlerForRead(context.Background(), path, 20*time.Millisecond, 0)
+			}
+			ch <- res{err}
+		}()
+		rep := map[string]interface{}{"call": op.name, "retry_delay": 0, "wait_timeout_ms": 20}
+		select {
+		case r := <-ch:
+			rep["error"] = fmt.Sprint(r.err)
+			if _, ok := r.err.(*file.TimeoutError); !ok {
+				o.Law("lock_timeout_expected", rep)
+			}
+			if after := controlKinds(d); after != before {
+				rep["before"], rep["after"] = before, after
+				o.Law("timeout_changed_control_files", rep)
+			}
+		case <-time.After(3 * time.Second):
+			o.Law("retry_delay_zero_did_not_return", rep)
+		}
+		_ = holder.Close(hh)
+		o.Eval()
+		o.NonTrivial("delay0:" + op.name)
+	}
+
 	// 3. real contexts: the call is held at a step beyond its waiting time / cancelled at that step
 	steps := map[string][]string{
 		"CreateHandlerForUpdate": {"lock.check", "lock.create", "lock.recheck", "update.open", "temp.create"},
@@ -461,5 +504,150 @@ func cancelAt(o *hc.Out, scratch string) {
 			}
 			_ = holder.Close(hh)
 		}
+	}
+}
+
+// pausedRelease: the RELEASE side on real processes.  Process A ends a transaction (ROLLBACK of a CREATE TABLE, of an
+// UPDATE, COMMIT of both, an error after CREATE TABLE); it is first run once with VERIF_TRACE to learn every named
+// point it passes while giving the table back (whatever the points are called in the tree under test), then held
+// (VERIF_PAUSE_AT) at each of them in turn while process B changes the same table with a short waiting time.
+// Law release_lost_others_commit: if B reports success its change is in the table when both have ended (A must not
+// remove or replace the table's file once it has let B in); A's own outcome is what it reported; nothing is left.
+func pausedRelease(o *hc.Out, bin, scratch string) {
+	type scen struct {
+		name, init, a, b   string
+		aMark, bMark       string // text that must be in the table when A's / B's change is committed
+		aCommits, bCreates bool
+	}
+	scens := []scen{
+		{"create_rollback", "", "CREATE TABLE `t.csv` (c1); ROLLBACK;", "ALTER TABLE `t.csv` ADD c2;", "", "c2", false, false},
+		{"create_error", "", "CREATE TABLE `t.csv` (c1); SELECT nosuchcolumn FROM `t.csv`;", "INSERT INTO `t.csv` VALUES ('B');", "", "B", false, false},
+		{"create_commit", "", "CREATE TABLE `t.csv` (c1); INSERT INTO `t.csv` VALUES ('A'); COMMIT;", "INSERT INTO `t.csv` VALUES ('B');", "A", "B", true, false},
+		{"update_rollback", "id,v,w\n1,x,y\n", "UPDATE `t.csv` SET v = 'A'; ROLLBACK;", "UPDATE `t.csv` SET w = 'B';", "", "B", false, false},
+		{"update_commit", "id,v,w\n1,x,y\n", "UPDATE `t.csv` SET v = 'A'; COMMIT;", "UPDATE `t.csv` SET w = 'B';", "A", "B", true, false},
+	}
+	acquisition := map[string]bool{"lock.check": true, "lock.create": true, "lock.recheck": true, "rlock.stat": true, "rlock.createlock": true,
+		"rlock.create": true, "temp.create": true, "update.open": true, "read.open": true, "create.open": true}
+	type job struct {
+		sc    scen
+		point string
+	}
+	var jobs []job
+	for i, sc := range scens {
+		d := filepath.Join(scratch, fmt.Sprintf("c09r-trace-%d", i))
+		_ = os.RemoveAll(d)
+		_ = os.MkdirAll(filepath.Join(d, "repo"), 0o755)
+		if sc.init != "" {
+			_ = os.WriteFile(filepath.Join(d, "repo", "t.csv"), []byte(sc.init), 0o644)
+		}
+		cmd := exec.Command(bin, "--repository", filepath.Join(d, "repo"), "--quiet", "--wait-timeout", "1", sc.a)
+		cmd.Dir = filepath.Join(d, "repo")
+		cmd.Env = append(os.Environ(), "HOME="+d, "VERIF_TRACE="+filepath.Join(d, "trace"))
+		_ = cmd.Run()
+		tr, _ := os.ReadFile(filepath.Join(d, "trace"))
+		seen := map[string]int{}
+		started := false
+		for _, p := range strings.Fields(string(tr)) {
+			seen[p]++
+			if !acquisition[p] && !(p == "cf.remove.lock" && !started) {
+				started = true
+				jobs = append(jobs, job{sc, fmt.Sprintf("%s#%d", p, seen[p])})
+			}
+		}
+		_ = os.RemoveAll(d)
+	}
+	type result struct {
+		laws []string
+		rep  map[string]interface{}
+		sig  string
+	}
+	results := make([]result, len(jobs))
+	sem := make(chan struct{}, 6)
+	var wg sync.WaitGroup
+	for i, jb := range jobs {
+		wg.Add(1)
+		go func(i int, jb job) {
+			defer wg.Done()
+			sem <- struct{}{}
+			defer func() { <-sem }()
+			base := filepath.Join(scratch, fmt.Sprintf("c09r-%d", i))
+			d := filepath.Join(base, "repo")
+			_ = os.RemoveAll(base)
+			_ = os.MkdirAll(d, 0o755)
+			defer func() { _ = os.RemoveAll(base) }()
+			path := filepath.Join(d, "t.csv")
+			if jb.sc.init != "" {
+				_ = os.WriteFile(path, []byte(jb.sc.init), 0o644)
+			}
+			gate := filepath.Join(base, "gate")
+			run := func(wait, stmt string, env ...string) (string, int) {
+				cmd := exec.Command(bin, "--repository", d, "--quiet", "--wait-timeout", wait, stmt)
+				cmd.Dir = d
+				cmd.Env = append(append(os.Environ(), "HOME="+base), env...)
+				var out bytes.Buffer
+				cmd.Stdout, cmd.Stderr = &out, &out
+				err := cmd.Run()
+				rc := 0
+				if ee, ok := err.(*exec.ExitError); ok {
+					rc = ee.ExitCode()
+				} else if err != nil {
+					rc = -1
+				}
+				return out.String(), rc
+			}
+			var outA string
+			var rcA int
+			done := make(chan struct{})
+			go func() {
+				outA, rcA = run("2", jb.sc.a, "VERIF_PAUSE_AT="+jb.point+":"+gate)
+				close(done)
+			}()
+			reached := false
+			for k := 0; k < 2000 && !reached; k++ {
+				if _, err := os.Stat(gate + ".reached"); err == nil {
+					reached = true
+					break
+				}
+				select {
+				case <-done:
+					k = 2000
+				case <-time.After(5 * time.Millisecond):
+				}
+			}
+			during := fsListing(d)
+			outB, rcB := run("0.25", jb.sc.b)
+			afterB := fsListing(d)
+			_ = os.WriteFile(gate, nil, 0o644)
+			<-done
+			b, rerr := os.ReadFile(path)
+			final := string(b)
+			rep := map[string]interface{}{"scenario": jb.sc.name, "A": jb.sc.a, "B": jb.sc.b, "A_held_at": jb.point, "held": reached,
+				"directory_while_A_is_held": during, "directory_after_B": afterB, "A_exit_code": rcA, "A_output": outA, "B_exit_code": rcB, "B_output": outB,
+				"table_at_the_end": final, "table_exists_at_the_end": rerr == nil}
+			var laws []string
+			if rcB == 0 && (rerr != nil || !strings.Contains(final, jb.sc.bMark)) {
+				laws = append(laws, "release_lost_others_commit")
+			}
+			if jb.sc.aCommits && rcA == 0 && (rerr != nil || !strings.Contains(final, jb.sc.aMark)) {
+				laws = append(laws, "release_lost_own_commit")
+			}
+			if !jb.sc.aCommits && jb.sc.init != "" && strings.Contains(final, "A") {
+				laws = append(laws, "rolled_back_change_visible")
+			}
+			if left := controlFiles(d); 0 < len(left) {
+				rep["control_files_left"] = left
+				laws = append(laws, "control_files_left")
+			}
+			results[i] = result{laws, rep, fmt.Sprintf("pausedrelease:%s:%s:%v:%v:%v", jb.sc.name, jb.point, reached, rcA == 0, rcB == 0)}
+		}(i, jb)
+	}
+	wg.Wait()
+	for _, r := range results {
+		for _, l := range r.laws {
+			o.Law(l, r.rep)
+		}
+		o.Eval()
+		o.NonTrivial(r.sig)
+		o.Count("paused_release")
 	}
 }
